@@ -211,3 +211,595 @@ func grouperSummary(p *Program, g *ssa.Global) string {
 	}
 	return "?global:" + g.Name()
 }
+
+// ---------------------------------------------------------------------------
+
+func ruleVectorOps(r *Run) {
+	p := r.P
+	vop := [2]string{logqlPkg, "VectorOp"}
+	aggs := map[string]string{}
+	for _, n := range []string{"Sum", "Avg", "Count", "Max", "Min", "Stddev", "Stdvar"} {
+		aggs["VectorOp"+n] = "type:*logqlmetric." + n + "Aggregator"
+	}
+	runCHSite(r, &chSite{Rule: "CH-MAP", Rel: metricPkg, Fn: "buildAggregator", TagType: vop, TagConst: "VectorOpSum",
+		Outcome: outClosureReturnType(), Expected: aggs, Other: "error",
+		Claim: "each vector operation aggregates with the aggregator of its own name"})
+	// VectorAggregation: iterator kind and comparator orientation per operation
+	orient := map[string]string{
+		"VectorOpBottomk": "type:*logqlmetric.vectorAggHeapIterator;less=Less;greater=Greater",
+		"VectorOpSort":    "type:*logqlmetric.vectorAggHeapIterator;less=Less;greater=Greater",
+		"VectorOpTopk":    "type:*logqlmetric.vectorAggHeapIterator;less=Greater;greater=Less",
+		"VectorOpSortDesc": "type:*logqlmetric.vectorAggHeapIterator;less=Greater;greater=Less",
+	}
+	for n := range aggs {
+		orient[n] = "error|type:*logqlmetric.vectorAggIterator"
+	}
+	runCHSite(r, &chSite{Rule: "CH-MAP", Rel: metricPkg, Fn: "VectorAggregation", TagType: vop, TagConst: "VectorOpTopk",
+		Outcome: func(r *Run, fn *ssa.Function, cr caseResult) string {
+			set := map[string]bool{}
+			for _, e := range cr.Ends {
+				if isErr, known := endReturnsError(e); known && isErr {
+					set["error"] = true
+					continue
+				}
+				if len(e.Results) == 0 {
+					continue
+				}
+				parts := []string{describeBuilt(e.Results[0].V)}
+				for _, f := range []string{"less", "greater"} {
+					vals := fieldStores(e, f)
+					if len(vals) == 0 {
+						continue
+					}
+					d := describe(vals[len(vals)-1].V, 0)
+					switch {
+					case strings.Contains(d, "Sample).Less"):
+						d = "Less"
+					case strings.Contains(d, "Sample).Greater"):
+						d = "Greater"
+					}
+					parts = append(parts, f+"="+d)
+				}
+				set[strings.Join(parts, ";")] = true
+			}
+			return joinSet(set)
+		},
+		Expected: orient, Other: "error|type:*logqlmetric.vectorAggIterator",
+		Claim:    "bottomk/sort order ascending (less=Sample.Less), topk/sort_desc descending (less=Sample.Greater); the others aggregate"})
+
+	// Sample.Less / Sample.Greater
+	for _, m := range []struct {
+		name string
+		op   token_
+	}{{"Less", tokLSS}, {"Greater", tokGTR}} {
+		fn := p.Method(metricPkg, "Sample", m.name)
+		o := r.Ob("CH-OP", "logqlmetric.Sample."+m.name, "Sample."+m.name+"(b) compares a.Data "+m.op.String()+" b.Data (NaN first)")
+		if fn == nil {
+			o.Fail("-", "method not found")
+			continue
+		}
+		found := false
+		allInstrs(fn, func(in ssa.Instruction) {
+			b, ok := in.(*ssa.BinOp)
+			if !ok {
+				return
+			}
+			fx, bx, okx := loadOfField(b.X)
+			fy, by, oky := loadOfField(b.Y)
+			if !okx || !oky || fx != "Data" || fy != "Data" {
+				return
+			}
+			px, py := spillParam(bx), spillParam(by)
+			direct := b.Op == m.op.tok() && px == ssa.Value(fn.Params[0]) && py == ssa.Value(fn.Params[1])
+			flipped := b.Op == flipCmp(m.op.tok()) && px == ssa.Value(fn.Params[1]) && py == ssa.Value(fn.Params[0])
+			if direct || flipped {
+				found = true
+			} else {
+				o.Fail(r.pos(b.Pos()), "compares %s %s %s", describe(b.X, 0), b.Op, describe(b.Y, 0))
+			}
+		})
+		if found && o.Status != Violated {
+			o.OK("a.Data %s b.Data", m.op.String()).At(r.pos(fn.Pos()))
+		} else if !found {
+			o.Fail(r.pos(fn.Pos()), "no comparison of a.Data with b.Data found")
+		}
+	}
+	ruleAggregatorReset(r)
+	ruleVectorAggNext(r)
+	ruleHeapIterator(r)
+	ruleByNesting(r)
+}
+
+type token_ int
+
+const (
+	tokLSS token_ = iota
+	tokGTR
+)
+
+func (t token_) String() string {
+	if t == tokLSS {
+		return "<"
+	}
+	return ">"
+}
+
+// ruleAggregatorReset: the zero value of every aggregator is its reset state
+// (vector aggregation creates aggregators without calling Reset).
+func ruleAggregatorReset(r *Run) {
+	p := r.P
+	for _, n := range []string{"Sum", "Avg", "Count", "Max", "Min", "Stddev", "Stdvar"} {
+		fn := p.Method(metricPkg, n+"Aggregator", "Reset")
+		o := r.Ob("CH-SIB", "logqlmetric."+n+"Aggregator zero value", "a freshly allocated aggregator equals a Reset one: Reset only stores zero values (the vector path never calls Reset, the range path always does)")
+		if fn == nil {
+			o.Fail("-", "method not found")
+			continue
+		}
+		bad := false
+		allInstrs(fn, func(in ssa.Instruction) {
+			st, ok := in.(*ssa.Store)
+			if !ok {
+				return
+			}
+			c, ok := st.Val.(*ssa.Const)
+			zero := ok && (c.Value == nil || c.Value.String() == "0" || c.Value.String() == "false" || c.Value.String() == "\"\"")
+			if !zero {
+				bad = true
+				o.Fail(r.pos(st.Pos()), "Reset stores %s into %s: an aggregator created without Reset (vector aggregation) starts from a different state", describe(st.Val, 0), describe(st.Addr, 0))
+			}
+		})
+		if !bad {
+			o.OK("Reset stores zero values only").At(r.pos(fn.Pos()))
+		}
+	}
+	// batchApplier: Reset before the loop, one Apply per point, Result after
+	ba := p.Method(metricPkg, "batchApplier", "Aggregate")
+	o := r.Ob("PV-ONCE", "logqlmetric.batchApplier.Aggregate", "a range aggregation resets a fresh state, applies every point's value exactly once, and returns the result")
+	if ba == nil {
+		o.Fail("-", "method not found")
+		return
+	}
+	loops := rangeIndexLoops(ba)
+	if len(loops) != 1 || loops[0].X != ssa.Value(ba.Params[1]) {
+		o.Fail(r.pos(ba.Pos()), "no single range loop over the whole points parameter")
+		return
+	}
+	l := loops[0]
+	var apply, reset, result ssa.CallInstruction
+	nApply := 0
+	for _, c := range callsIn(ba) {
+		switch {
+		case invokeIs(c, "Apply"):
+			apply = c
+			nApply++
+		case invokeIs(c, "Reset"):
+			reset = c
+		case invokeIs(c, "Result"):
+			result = c
+		}
+	}
+	switch {
+	case apply == nil || reset == nil || result == nil || nApply != 1:
+		o.Fail(r.pos(ba.Pos()), "Reset=%v Apply calls=%d Result=%v", reset != nil, nApply, result != nil)
+	case !l.Blocks[apply.Block()] || !mustPassThrough(l.Body, l.Header, apply.Block()) || len(l.earlyExits()) > 0:
+		o.Fail(r.pos(apply.Pos()), "Apply is not executed exactly once for every point")
+	case !instrDominates(reset, apply) || l.Blocks[reset.Block()]:
+		o.Fail(r.pos(reset.Pos()), "Reset does not run once before the loop")
+	default:
+		f, _, ok := loadOfField(apply.Common().Args[0])
+		if !ok || f != "Value" {
+			o.Fail(r.pos(apply.Pos()), "Apply is given %s, not the point's Value", describe(apply.Common().Args[0], 0))
+		} else {
+			o.OK("Reset; for each point Apply(p.Value); Result").At(r.pos(ba.Pos()))
+		}
+	}
+}
+
+// ruleVectorAggNext: one aggregator per group, created on the miss edge; Apply once per sample.
+func ruleVectorAggNext(r *Run) {
+	p := r.P
+	fn := p.Method(metricPkg, "vectorAggIterator", "Next")
+	o := r.Ob("PV-FIRST", "logqlmetric.(*vectorAggIterator).Next", "each input sample is applied exactly once to the aggregator of its group; a group's aggregator is created only when the group is first seen; every group is reported once with its own labels and result")
+	if fn == nil {
+		o.Fail("-", "method not found")
+		return
+	}
+	var loop *rangeLoop
+	for _, l := range rangeIndexLoops(fn) {
+		if f, _, ok := loadOfField(l.X); ok && f == "Samples" {
+			loop = l
+			break
+		}
+	}
+	if loop == nil {
+		o.Fail(r.pos(fn.Pos()), "no range loop over the whole step.Samples")
+		return
+	}
+	good := true
+	if len(loop.earlyExits()) > 0 {
+		good = false
+		o.Fail(r.pos(fn.Pos()), "the sample loop can be left early")
+	}
+	var apply *ssa.Call
+	var lk *ssa.Lookup
+	var mu *ssa.MapUpdate
+	var newAgg *ssa.Call
+	nApply := 0
+	for b := range loop.Blocks {
+		for _, in := range b.Instrs {
+			switch x := in.(type) {
+			case *ssa.Call:
+				if invokeIs(x, "Apply") {
+					apply = x
+					nApply++
+				}
+				if f, base, ok := loadOfField(x.Call.Value); ok && f == "agg" && base == ssa.Value(fn.Params[0]) {
+					newAgg = x
+				}
+			case *ssa.Lookup:
+				if x.CommaOk {
+					lk = x
+				}
+			case *ssa.MapUpdate:
+				mu = x
+			}
+		}
+	}
+	if apply == nil || nApply != 1 || lk == nil || mu == nil || newAgg == nil {
+		o.Fail(r.pos(fn.Pos()), "loop body: Apply calls=%d lookup=%v map store=%v aggregator factory call=%v", nApply, lk != nil, mu != nil, newAgg != nil)
+		return
+	}
+	if !mustPassThrough(loop.Body, loop.Header, apply.Block()) {
+		good = false
+		o.Fail(r.pos(apply.Pos()), "Apply is skipped for some samples")
+	}
+	// Apply(s.Data) where s is the ranged sample
+	if f, _, ok := loadOfField(apply.Call.Args[0]); !ok || f != "Data" {
+		good = false
+		o.Fail(r.pos(apply.Pos()), "Apply is given %s, not the sample's Data", describe(apply.Call.Args[0], 0))
+	}
+	// new aggregator + map store only on the miss edge
+	var okv ssa.Value
+	for _, ref := range *lk.Referrers() {
+		if e, ok := ref.(*ssa.Extract); ok && e.Index == 1 {
+			okv = e
+		}
+	}
+	for _, in := range []ssa.Instruction{newAgg, mu} {
+		if b, known := knownBoolAt(in.Block(), okv); !known || b {
+			good = false
+			o.Fail(r.pos(in.Pos()), "a group's aggregator is (re)created or stored on a path that is not the first sighting of the group")
+		}
+	}
+	if mu.Map != lk.X || mu.Key != lk.Index {
+		good = false
+		o.Fail(r.pos(mu.Pos()), "the group is stored under a different map/key than it is looked up")
+	}
+	// Apply receiver: the group's agg (looked up or new)
+	if good {
+		o.OK("lookup by group key; miss -> new group{metric, agg()} stored; Apply(s.Data) once per sample").At(r.pos(fn.Pos()))
+	}
+	// output loop: one sample per group: Data = g.agg.Result(), Set = g.metric
+	oo := r.Ob("PV-PAIR", "logqlmetric.(*vectorAggIterator).Next output", "each group is reported once, with the group's own label set and its aggregator's result; the step keeps its timestamp")
+	var res *ssa.Call
+	for _, c := range callsIn(fn) {
+		if call, ok := c.(*ssa.Call); ok && invokeIs(call, "Result") {
+			res = call
+		}
+	}
+	ogood := res != nil
+	if res == nil {
+		oo.Fail(r.pos(fn.Pos()), "Result() is never called")
+	} else {
+		// the appended Sample literal
+		var lit *ssa.Alloc
+		for _, ref := range *res.Referrers() {
+			if st, ok := ref.(*ssa.Store); ok {
+				if _, base, ok := fieldNameOf(st.Addr); ok {
+					lit, _ = base.(*ssa.Alloc)
+				}
+			}
+		}
+		if lit == nil {
+			ogood = false
+			oo.Fail(r.pos(res.Pos()), "the result is not stored into a Sample literal")
+		} else {
+			fs := allocFieldStores(lit)
+			setV := fs["Set"]
+			f, base, ok := loadOfField(setV)
+			_, aggBase, ok2 := loadOfField(res.Call.Value)
+			if !ok || f != "metric" || !ok2 || describe(base, 0) != describe(aggBase, 0) {
+				ogood = false
+				oo.Fail(r.pos(res.Pos()), "the reported sample pairs %s with the result of %s", describe(setV, 0), describe(res.Call.Value, 0))
+			}
+		}
+		tsOK := false
+		allInstrs(fn, func(in ssa.Instruction) {
+			if st, ok := in.(*ssa.Store); ok {
+				if n, base, ok := fieldNameOf(st.Addr); ok && n == "Timestamp" && base == ssa.Value(fn.Params[1]) {
+					if f, _, ok := loadOfField(st.Val); ok && f == "Timestamp" {
+						tsOK = true
+					}
+				}
+			}
+		})
+		if !tsOK {
+			ogood = false
+			oo.Fail(r.pos(fn.Pos()), "the output step's timestamp is not the input step's timestamp")
+		}
+	}
+	if ogood {
+		oo.OK("Sample{Data: g.agg.Result(), Set: g.metric}; r.Timestamp = step.Timestamp").At(r.pos(fn.Pos()))
+	}
+}
+
+// ruleHeapIterator: topk/bottomk/sort.
+func ruleHeapIterator(r *Run) {
+	p := r.P
+	fn := p.Method(metricPkg, "vectorAggHeapIterator", "Next")
+	o := r.Ob("FE-ORD", "logqlmetric.(*vectorAggHeapIterator).Next", "sort keeps every sample; topk/bottomk keep the first `limit` samples and then replace the worst kept sample iff the new one is better; kept samples are emitted unchanged (labels intact), ordered by the operation's order")
+	if fn == nil {
+		o.Fail("-", "method not found")
+		return
+	}
+	var loop *rangeLoop
+	for _, l := range rangeIndexLoops(fn) {
+		if f, _, ok := loadOfField(l.X); ok && f == "Samples" {
+			loop = l
+			break
+		}
+	}
+	if loop == nil {
+		o.Fail(r.pos(fn.Pos()), "no range loop over the whole step.Samples")
+		return
+	}
+	var cNeg, cRoom *ssa.BinOp
+	var cLess *ssa.Call
+	for b := range loop.Blocks {
+		for _, in := range b.Instrs {
+			switch x := in.(type) {
+			case *ssa.BinOp:
+				if x.Op == tokLSS.tok() {
+					fx, _, okx := loadOfField(x.X)
+					if okx && fx == "limit" {
+						if z, ok := constInt(x.Y); ok && z == 0 {
+							cNeg = x
+						}
+					}
+					if c, ok := x.X.(*ssa.Call); ok && staticCallee(c) != nil && staticCallee(c).Name() == "Len" {
+						if fy, _, oky := loadOfField(x.Y); oky && fy == "limit" {
+							cRoom = x
+						}
+					}
+				}
+			case *ssa.Call:
+				if f, _, ok := loadOfField(x.Call.Value); ok && f == "less" && loop.Blocks[x.Block()] {
+					cLess = x
+				}
+			}
+		}
+	}
+	if cNeg == nil || cRoom == nil || cLess == nil {
+		o.Undecide(r.pos(fn.Pos()), "the three decisions (limit < 0, heap.Len() < limit, less(s, heap.Min())) were not all found")
+		return
+	}
+	good := true
+	// less(s, Min()) argument order
+	if mc, ok := cLess.Call.Args[1].(*ssa.Call); !ok || staticCallee(mc) == nil || staticCallee(mc).Name() != "Min" {
+		good = false
+		o.Fail(r.pos(cLess.Pos()), "the replacement test is less(%s, %s), expected less(sample, heap.Min())", describe(cLess.Call.Args[0], 0), describe(cLess.Call.Args[1], 0))
+	}
+	type ev struct{ push, pop, app int }
+	run := func(neg, room, less bool) ev {
+		assume := map[ssa.Value]constant.Value{cNeg: constant.MakeBool(neg), cRoom: constant.MakeBool(room), cLess: constant.MakeBool(less)}
+		w := &feWalker{Fn: fn, Assume: assume}
+		var worst ev
+		for _, e := range w.RunFrom(loop.Body, loop.Header) {
+			var cur ev
+			headerSeen := false
+			// only the first iteration
+			firstIter := map[*ssa.BasicBlock]bool{}
+			for _, b := range e.State.trail[1:] {
+				if b == loop.Header {
+					headerSeen = true
+					break
+				}
+				firstIter[b] = true
+			}
+			_ = headerSeen
+			firstIter[loop.Body] = true
+			for _, c := range e.State.calls {
+				if !firstIter[c.Call.Block()] || !loop.Blocks[c.Call.Block()] {
+					continue
+				}
+				if callIs(c.Call, "container/heap", "Push") {
+					cur.push++
+				}
+				if callIs(c.Call, "container/heap", "Pop") {
+					cur.pop++
+				}
+				if bi, ok := c.Call.Common().Value.(*ssa.Builtin); ok && bi.Name() == "append" {
+					cur.app++
+				}
+			}
+			if cur.push > worst.push {
+				worst.push = cur.push
+			}
+			if cur.pop > worst.pop {
+				worst.pop = cur.pop
+			}
+			if cur.app > worst.app {
+				worst.app = cur.app
+			}
+		}
+		return worst
+	}
+	// visits bound 2 means calls may be counted for two iterations; compare per-iteration by halving is fragile, so use presence
+	check := func(neg, room, less bool, wantPush, wantPop, wantApp bool, what string) {
+		e := run(neg, room, less)
+		if (e.push > 0) != wantPush || (e.pop > 0) != wantPop || (e.app > 0) != wantApp {
+			good = false
+			o.Fail(r.pos(fn.Pos()), "%s: push=%v pop=%v append=%v, expected push=%v pop=%v append=%v", what, e.push > 0, e.pop > 0, e.app > 0, wantPush, wantPop, wantApp)
+		}
+	}
+	check(true, false, false, false, false, true, "limit < 0 (sort): the sample is appended")
+	check(false, true, false, true, false, false, "heap not full: the sample is pushed")
+	check(false, false, true, true, true, false, "heap full and the sample is better than the worst kept: replace")
+	check(false, false, false, false, false, false, "heap full and the sample is not better: ignored")
+	// the heap is ordered by `greater`, so Min() is the worst kept sample for `less`
+	hOK := false
+	allInstrs(fn, func(in ssa.Instruction) {
+		if st, ok := in.(*ssa.Store); ok {
+			if n, base, ok := fieldNameOf(st.Addr); ok && n == "compare" && typeKey(base.Type()) == "sampleHeap" {
+				if f, _, ok := loadOfField(st.Val); ok && f == "greater" {
+					hOK = true
+				}
+			}
+		}
+	})
+	if !hOK {
+		good = false
+		o.Fail(r.pos(fn.Pos()), "the per-group heap is not ordered by the operation's `greater` comparator (heap.Min() would not be the worst kept sample)")
+	}
+	// limit == 0 -> no samples
+	if good {
+		o.OK("append / push / pop+push / ignore table matches; heap ordered by greater; less(s, Min())").At(r.pos(fn.Pos()))
+	}
+	// sampleHeap adapter
+	oh := r.Ob("PV-ROLE", "logqlmetric.sampleHeap adapter", "Less(i, j) = compare(elements[i], elements[j]); Min() = elements[0]; Push appends; Pop removes the last element")
+	hl := p.Method(metricPkg, "sampleHeap", "Less")
+	hm := p.Method(metricPkg, "sampleHeap", "Min")
+	if hl == nil || hm == nil {
+		oh.Fail("-", "methods not found")
+		return
+	}
+	aok := false
+	for _, c := range callsIn(hl) {
+		if f, _, ok := loadOfField(c.Common().Value); ok && f == "compare" {
+			i0, ok0 := indexParam(unspill(c.Common().Args[0]), hl)
+			i1, ok1 := indexParam(unspill(c.Common().Args[1]), hl)
+			if ok0 && ok1 && i0 == 1 && i1 == 2 {
+				aok = true
+			}
+		}
+	}
+	mok := false
+	for _, ret := range returnsOf(hm) {
+		if lu, ok := ret.Results[0].(*ssa.UnOp); ok {
+			if ia, ok := lu.X.(*ssa.IndexAddr); ok {
+				if z, ok := constInt(ia.Index); ok && z == 0 {
+					mok = true
+				}
+			}
+		}
+	}
+	if aok && mok {
+		oh.OK("compare(elements[i], elements[j]); Min = elements[0]").At(r.pos(hl.Pos()))
+	} else {
+		oh.Fail(r.pos(hl.Pos()), "Less compares in order (i, j)=%v; Min returns elements[0]=%v", aok, mok)
+	}
+}
+
+// ruleByNesting: By never widens the visible label set.
+func ruleByNesting(r *Run) {
+	p := r.P
+	fn := p.Method(enginePkg, "aggregatedLabels", "By")
+	o := r.Ob("AF-SET", "logqlengine.(*aggregatedLabels).By", "By(L) always restricts (also for an empty L) and keeps a label only if an enclosing by-set kept it: labels removed by an inner aggregation cannot reappear")
+	if fn == nil {
+		o.Fail("-", "method not found")
+		return
+	}
+	good := true
+	// never returns the receiver
+	for _, ret := range returnsOf(fn) {
+		for _, lv := range phiLeaves(ret.Results[0]) {
+			root := stripTypeOnly(lv)
+			if root == ssa.Value(fn.Params[0]) {
+				good = false
+				o.Fail(r.pos(ret.Pos()), "By returns its receiver unchanged on some path: `by ()` (or this case) would group by all labels")
+				continue
+			}
+			al, ok := root.(*ssa.Alloc)
+			if !ok {
+				good = false
+				o.Undecide(r.pos(ret.Pos()), "By returns %s", describe(root, 0))
+				continue
+			}
+			fs := allocFieldStores(al)
+			if _, isMake := fs["by"].(*ssa.MakeMap); !isMake {
+				good = false
+				o.Fail(r.pos(ret.Pos()), "the result's by-set is %s, not a fresh set built from the argument list", describe(fs["by"], 0))
+			}
+			if f, base, ok := loadOfField(fs["without"]); !ok || f != "without" || base != ssa.Value(fn.Params[0]) {
+				good = false
+				o.Fail(r.pos(ret.Pos()), "the result's without-set is not the receiver's")
+			}
+			if f, base, ok := loadOfField(fs["entries"]); !ok || f != "entries" || base != ssa.Value(fn.Params[0]) {
+				good = false
+				o.Fail(r.pos(ret.Pos()), "the result's entries are not the receiver's")
+			}
+		}
+	}
+	// insertion decision
+	var loop *rangeLoop
+	for _, l := range rangeIndexLoops(fn) {
+		if l.X == ssa.Value(fn.Params[1]) {
+			loop = l
+		}
+	}
+	if loop == nil {
+		o.Fail(r.pos(fn.Pos()), "no range loop over the whole label list")
+		return
+	}
+	var nonNil *ssa.BinOp
+	var nn bool
+	var okv ssa.Value
+	for b := range loop.Blocks {
+		for _, in := range b.Instrs {
+			switch x := in.(type) {
+			case *ssa.BinOp:
+				if v, t, ok := nilCheck(x); ok {
+					if f, base, ok := loadOfField(v); ok && f == "by" && base == ssa.Value(fn.Params[0]) {
+						nonNil, nn = x, t
+					}
+				}
+			case *ssa.Lookup:
+				if f, base, ok := loadOfField(x.X); ok && f == "by" && base == ssa.Value(fn.Params[0]) && x.CommaOk {
+					for _, ref := range *x.Referrers() {
+						if e, ok := ref.(*ssa.Extract); ok && e.Index == 1 {
+							okv = e
+						}
+					}
+				}
+			}
+		}
+	}
+	if nonNil == nil || okv == nil {
+		good = false
+		o.Fail(r.pos(fn.Pos()), "By does not consult the receiver's by-set: a nested by() can re-expose labels an inner aggregation removed")
+	} else {
+		for _, c := range []struct{ has, in, want bool }{{false, false, true}, {true, false, false}, {true, true, true}} {
+			w := &feWalker{Fn: fn, Assume: map[ssa.Value]constant.Value{nonNil: constant.MakeBool(c.has == nn), okv: constant.MakeBool(c.in)}}
+			ins := false
+			for _, e := range w.RunFrom(loop.Body, loop.Header) {
+				for _, b := range e.State.trail {
+					if !loop.Blocks[b] {
+						break
+					}
+					for _, in := range b.Instrs {
+						if _, ok := in.(*ssa.MapUpdate); ok {
+							ins = true
+						}
+					}
+				}
+			}
+			if ins != c.want {
+				good = false
+				o.Fail(r.pos(fn.Pos()), "receiver has by-set=%v, label in it=%v: label inserted=%v, expected %v", c.has, c.in, ins, c.want)
+			}
+		}
+	}
+	if good {
+		o.OK("fresh by-set = L ∩ receiver's by-set (if any); never the receiver").At(r.pos(fn.Pos()))
+	}
+}
